@@ -102,3 +102,42 @@ func VerifC16() {
 		verifrt.Cover(same, "two-partitions-can-get-the-same-replica-set")
 	}
 }
+
+// VerifC16Large: a cluster of many members (beyond any small word size): the
+// replica list of one partition still has exactly min(R, N) distinct members.
+// Only the first draws of the shuffle are path decisions (verifrt.RandBudget);
+// the rest of the permutation is fixed.
+func VerifC16Large() {
+	N := verifrt.Bound("n", 70)
+	R := verifrt.Bound("r", 3)
+	verifrt.RandBudget(verifrt.Bound("draws", 2))
+	conn, err := cluster.NewConn(1, "addr", "")
+	if err != nil {
+		panic(err)
+	}
+	member := map[uint64]bool{}
+	for i := 1; i <= N; i++ {
+		conn.AddNode(uint64(i), "addr")
+		member[uint64(i)] = true
+	}
+	ctx, cancel := context.WithCancel(context.Background())
+	defer cancel()
+	a := &Allocator{ctx: ctx, cancelCtx: cancel, clusterConn: conn, updatesC: make(chan interface{}),
+		partitions: make(map[uuid.UUID]*partition), partitionsMu: &sync.RWMutex{}}
+	res := a.getPartitionsNodeIds(1, uint(R))
+	want := R
+	if N < want {
+		want = N
+	}
+	verifrt.Assert(len(res) == 1, "one-list-per-partition")
+	for _, nodes := range res {
+		verifrt.Assert(len(nodes) == want, "exactly-min-R-N-replicas")
+		for i, id := range nodes {
+			verifrt.Assert(member[id], "replica-is-a-member")
+			for j := 0; j < i; j++ {
+				verifrt.Assert(nodes[j] != id, "replicas-distinct")
+			}
+		}
+	}
+	verifrt.Reach("placed")
+}
